@@ -24,6 +24,7 @@ from dataclasses import dataclass, field
 from typing import Any
 
 from src.core.constants import StorageMode
+from src.core.linter_utils import require_number
 
 # Default configuration constants
 DEFAULT_MIN_DUPLICATE_LINES = 3
@@ -92,6 +93,7 @@ class DRYConfig:  # pylint: disable=too-many-instance-attributes
             ("min_constant_occurrences", self.min_constant_occurrences),
         ]
         for name, value in positive_fields:
+            require_number(name, value)
             if value <= 0:
                 raise ValueError(f"{name} must be positive, got {value}")
 
